@@ -52,6 +52,7 @@ type Step struct {
 	Quiet    bool     `json:"quiet,omitempty"`
 	Free     bool     `json:"free,omitempty"`
 	Only     string   `json:"only,omitempty"`
+	Threads  [][]Step `json:"threads,omitempty"`
 	PauseUs  int      `json:"pause_us,omitempty"`
 }
 
